@@ -302,6 +302,46 @@ fn c04_clone<E: Elem + Clone, N: ArrayLength>(cx: &mut Ctx) {
             (a, b)
         });
     }
+    // clone_from: the k-th T::clone panics while an existing target is being overwritten
+    for k in 0..=n {
+        c04_case(cx, "clone_from.array", E::NAME, n, "", k, n, |fa| {
+            let a: GA<E, N> = mk();
+            let mut t: GA<E, N> = mk();
+            if let Some(k) = fa {
+                fault::arm_clone(k);
+            }
+            t.clone_from(&a);
+            (a, t)
+        });
+        c04_case(cx, "clone_from.box", E::NAME, n, "", k, n, |fa| {
+            let a: Box<GA<E, N>> = Box::new(mk());
+            let mut t: Box<GA<E, N>> = Box::new(mk());
+            if let Some(k) = fa {
+                fault::arm_clone(k);
+            }
+            t.clone_from(&a);
+            (a, t)
+        });
+    }
+    for f in 0..=n {
+        for b in f..=n {
+            let len = b - f;
+            // target positions: fresh, exhausted, and the mirror image of the source's
+            for (df, db) in [(0, n), (n, n), (n - b, n - f), (f, b)] {
+                for k in 0..=len {
+                    c04_case(cx, "clone_from.iter", E::NAME, n, &format!(" src=({f},{b}) dst=({df},{db})"), k, len, |fa| {
+                        let (it, _) = iter_at::<E, N>(f, b);
+                        let (mut t, _) = iter_at::<E, N>(df, db);
+                        if let Some(k) = fa {
+                            fault::arm_clone(k);
+                        }
+                        t.clone_from(&it);
+                        (it, t)
+                    });
+                }
+            }
+        }
+    }
     // the by-value iterator, cloned at every position (f front steps, n-b back steps)
     for f in 0..=n {
         for b in f..=n {
@@ -1023,12 +1063,209 @@ fn c05_ops<E: Elem, N: ArrayLength>(cx: &mut Ctx) {
     }
 }
 
-fn c05_all<E: Elem, N: ArrayLength>(cx: &mut Ctx) {
+
+/// A C05 case in which the object **survives** the panic (the caller holds it behind
+/// `&mut`) and is used afterwards: whatever it still claims to hold is observed and then
+/// drained.  A stale element shows as UseAfterDrop at the observation, a second release as
+/// DoubleDrop when it is drained or dropped.
+fn c05_case_keep<S, R>(
+    cx: &mut Ctx,
+    op: &str,
+    flav: &str,
+    n: usize,
+    extra: &str,
+    bomb: usize,
+    setup: impl FnOnce() -> (S, Vec<u64>),
+    run: impl FnOnce(&mut S) -> R,
+    after: impl FnOnce(S),
+) {
+    let Some(desc) = cx.st.select(|| format!("C05 {op} {flav} N={n}{extra} bomb={bomb}")) else { return };
+    ledger::begin_case();
+    fault::reset();
+    let opform = format!("{op}|{flav}");
+    cx.st.op(&format!("C05 {op} N={n}"));
+    let (mut state, ids) = setup();
+    if bomb < ids.len() {
+        if ids[bomb] != 0 {
+            fault::arm_bomb(ids[bomb]);
+        } else {
+            fault::arm_zst_bomb(bomb);
+        }
+    }
+    let r = catch(|| {
+        let out = run(&mut state);
+        drop(out);
+    });
+    let fired = fault::bomb_fired();
+    let live_at = fault::live_at_fault();
+    if let Caught::Other(m) = &r {
+        cx.st.violation("C05", &format!("{opform}|OtherPanic"), &desc, &format!("unexpected panic: {m} ({})", fault::last_panic()));
+    }
+    // the survivor is used and then dropped; the bomb may fire here instead (once)
+    let r2 = catch(move || after(state));
+    if let Caught::Other(m) = &r2 {
+        cx.st.violation("C05", &format!("{opform}|OtherPanic"), &desc, &format!("unexpected panic while using the survivor: {m} ({})", fault::last_panic()));
+    }
+    let v: Vec<_> = ledger::end_case(true).into_iter().collect();
+    if !v.is_empty() {
+        let sig = format!("{}|{}", opform, ledger::kinds(&v));
+        cx.st.violation("C05", &sig, &desc, &ledger::describe(&v));
+    }
+    cx.st.done(&desc, fired && live_at > 0);
+    if fired {
+        cx.st.count("c05.bombs_fired", 1);
+        cx.st.count("c05.survivor_used_after_panic", 1);
+    }
+}
+
+/// observe everything the iterator still claims to hold, then drain it from both ends
+fn use_up<E: Elem, N: ArrayLength>(mut it: GenericArrayIter<E, N>) {
+    let seen: Vec<u64> = it.as_slice().iter().map(|e| e.key()).collect();
+    assert_eq!(seen.len(), it.len(), "len() and as_slice() disagree after a caught destructor panic");
+    let mut turn = 0usize;
+    loop {
+        let x = if turn % 2 == 0 { it.next() } else { it.next_back() };
+        match x {
+            Some(e) => {
+                let _ = e.key();
+                // one drop per catch: a second bomb cannot exist, but keep unwinding local
+                let _ = catch(move || drop(e));
+            }
+            None => break,
+        }
+        turn += 1;
+    }
+    assert!(it.next().is_none() && it.next_back().is_none());
+}
+
+fn c05_survivors<E: Elem + Clone, N: ArrayLength>(cx: &mut Ctx) {
+    let n = N::USIZE;
+    for f in 0..=n {
+        for b in f..=n {
+            let len = b - f;
+            let pos = format!(" pos=({f},{b})");
+            for bomb in 0..len {
+                for arg in [0, 1, len / 2, len.saturating_sub(1), len, len + 1, usize::MAX] {
+                    let ex = format!("{pos} arg={arg}");
+                    c05_case_keep(cx, "iter.nth.then_use", E::NAME, n, &ex, bomb, || iter_at::<E, N>(f, b), |it| it.nth(arg), use_up);
+                    c05_case_keep(cx, "iter.nth_back.then_use", E::NAME, n, &ex, bomb, || iter_at::<E, N>(f, b), |it| it.nth_back(arg), use_up);
+                    c05_case_keep(cx, "iter.by_ref_skip.then_use", E::NAME, n, &ex, bomb, || iter_at::<E, N>(f, b), |it| it.by_ref().skip(arg).next(), use_up);
+                    c05_case_keep(cx, "iter.by_ref_rev_skip.then_use", E::NAME, n, &ex, bomb, || iter_at::<E, N>(f, b), |it| it.by_ref().rev().skip(arg).next(), use_up);
+                }
+                c05_case_keep(cx, "iter.by_ref_count.then_use", E::NAME, n, &pos, bomb, || iter_at::<E, N>(f, b), |it| it.by_ref().count(), use_up);
+                c05_case_keep(cx, "iter.by_ref_last.then_use", E::NAME, n, &pos, bomb, || iter_at::<E, N>(f, b), |it| it.by_ref().last(), use_up);
+                c05_case_keep(cx, "iter.by_ref_for_each_drop.then_use", E::NAME, n, &pos, bomb, || iter_at::<E, N>(f, b), |it| it.by_ref().for_each(drop), use_up);
+                c05_case_keep(cx, "iter.by_ref_rev_for_each_drop.then_use", E::NAME, n, &pos, bomb, || iter_at::<E, N>(f, b), |it| it.by_ref().rev().for_each(drop), use_up);
+                c05_case_keep(cx, "iter.step_by.then_use", E::NAME, n, &pos, bomb, || iter_at::<E, N>(f, b), |it| it.by_ref().step_by(2).for_each(drop), use_up);
+                // the target of clone_from / assignment holds the bomb: its old contents are
+                // torn down by the operation, the target survives
+                for (sf, sb) in [(0, n), (n, n), (f, b), (n - b, n - f)] {
+                    let ex = format!("{pos} src=({sf},{sb})");
+                    c05_case_keep(
+                        cx,
+                        "iter.clone_from.then_use",
+                        E::NAME,
+                        n,
+                        &ex,
+                        bomb,
+                        || {
+                            let (t, ids) = iter_at::<E, N>(f, b);
+                            let (s, _) = iter_at::<E, N>(sf, sb);
+                            ((t, s), ids)
+                        },
+                        |ts| ts.0.clone_from(&ts.1),
+                        |(t, s)| {
+                            use_up(t);
+                            use_up(s);
+                        },
+                    );
+                    c05_case_keep(
+                        cx,
+                        "iter.assign_clone.then_use",
+                        E::NAME,
+                        n,
+                        &ex,
+                        bomb,
+                        || {
+                            let (t, ids) = iter_at::<E, N>(f, b);
+                            let (s, _) = iter_at::<E, N>(sf, sb);
+                            ((t, s), ids)
+                        },
+                        |ts| ts.0 = ts.1.clone(),
+                        |(t, s)| {
+                            use_up(t);
+                            use_up(s);
+                        },
+                    );
+                }
+            }
+        }
+    }
+    // arrays as clone_from targets (stack and boxed) and as assignment targets
+    for bomb in 0..n {
+        let pair = || {
+            let t = mk::<E, N>();
+            let ids = ids_of(&t);
+            ((t, mk::<E, N>()), ids)
+        };
+        let look = |(t, s): (GA<E, N>, GA<E, N>)| {
+            for e in t.iter().chain(s.iter()) {
+                let _ = e.key();
+            }
+            let _ = catch(move || drop(t));
+            drop(s);
+        };
+        c05_case_keep(cx, "array.clone_from.then_use", E::NAME, n, "", bomb, pair, |ts| ts.0.clone_from(&ts.1), look);
+        c05_case_keep(cx, "array.assign_clone.then_use", E::NAME, n, "", bomb, pair, |ts| ts.0 = ts.1.clone(), look);
+        c05_case_keep(
+            cx,
+            "box.clone_from.then_use",
+            E::NAME,
+            n,
+            "",
+            bomb,
+            || {
+                let ((t, s), ids) = pair();
+                ((Box::new(t), Box::new(s)), ids)
+            },
+            |ts| ts.0.clone_from(&ts.1),
+            |(t, s)| look((*t, *s)),
+        );
+        // elements replaced one by one through the mutable views
+        c05_case_keep(
+            cx,
+            "array.refresh_through_views.then_use",
+            E::NAME,
+            n,
+            "",
+            bomb,
+            pair,
+            |ts| {
+                for (i, e) in ts.0.iter_mut().enumerate() {
+                    if i % 2 == 0 {
+                        e.refresh();
+                    }
+                }
+                for (i, e) in ts.0.as_mut_slice().iter_mut().enumerate() {
+                    if i % 2 == 1 {
+                        e.refresh();
+                    }
+                }
+            },
+            look,
+        );
+    }
+}
+
+fn c05_all<E: Elem + Clone, N: ArrayLength>(cx: &mut Ctx) {
     if cx.args.part_on("iter") {
         c05_iter::<E, N>(cx);
     }
     if cx.args.part_on("ops") {
         c05_ops::<E, N>(cx);
+    }
+    if cx.args.part_on("keep") {
+        c05_survivors::<E, N>(cx);
     }
 }
 
